@@ -1,6 +1,6 @@
 (* C01 -- Transpilation preserves program behaviour (token-preservation clause).
    Property theorems only. *)
-Require Import Base Token Tree Writer Compile Parser Grammar TokenSpec TokenProofs.
+Require Import Base Token Lexer Tree Writer Compile Parser Grammar WriterSpec CommentSpec TokenSpec TokenProofs C01Proofs.
 Require Import Gen.Tables Gen.Printer.
 
 (* every program of the grammar (its tokens matched by the tree, the tree respecting the
@@ -13,3 +13,35 @@ Theorem C01_tokens_preserved : forall p toks,
   token_preserving p toks = true.
 Proof. exact token_text_preserved. Qed.
 Print Assumptions C01_tokens_preserved.
+
+(* the lexer spells every keyword / operator / punctuation token canonically *)
+Theorem C01_lexer_canonical : forall src toks,
+  tokenize src = Some toks -> forallb tok_canonical toks = true.
+Proof. exact lex_canonical. Qed.
+Print Assumptions C01_lexer_canonical.
+
+(* In EVERY configuration (compact or pretty, any blank indent unit, with or without
+   semicolons, with or without source map) the code of a program of the grammar, with the
+   layout bytes (blanks, tabs, line breaks, ';') removed, is byte for byte the source's
+   token texts in source order: compiling never panics, drops, adds, reorders or respells
+   a token.  Pretty configurations additionally write the comments (C15); the statement
+   covers them for comment-free trees, compact configurations for all trees. *)
+Theorem C01_code_tokens : forall cfg p toks,
+  m_program p toks = true -> wf_program p = true -> forallb tok_canonical toks = true ->
+  blank_str (w_indent cfg) ->
+  (w_pretty cfg = false \/ tmap_program erase_comments p = p) ->
+  r_panic (compile cfg p) = false /\
+  nolayout (r_code (compile cfg p)) = nolayout (toks_text toks).
+Proof. exact code_tokens_preserved. Qed.
+Print Assumptions C01_code_tokens.
+
+(* end to end from the source text: lexing, parsing (C02: exactly the ECMAScript tree of
+   the token sequence, without error) and printing *)
+Theorem C01_source_to_code : forall src toks p cfg,
+  tokenize src = Some toks -> m_program p toks = true -> wf_program p = true ->
+  blank_str (w_indent cfg) -> (w_pretty cfg = false \/ tmap_program erase_comments p = p) ->
+  (exists r, parse_tokens cfg_default toks = Some r /\ pr_program r = p /\ pr_errors r = []) /\
+  r_panic (compile cfg p) = false /\
+  nolayout (r_code (compile cfg p)) = nolayout (toks_text toks).
+Proof. exact source_to_code. Qed.
+Print Assumptions C01_source_to_code.
